@@ -526,6 +526,13 @@ def build(ctx, p):
 # ------------------------------------------------------------------ operations
 def _fmt_center(rng, c, flat):
     """Offer the centre in the admissible representations (float / 0-d array for flat 1-D points, array/list/tuple otherwise)."""
+    if rng.random() < 0.2:
+        # the centre on integer coordinates, handed over in an INTEGER form (Python int, NumPy integer, list / tuple of
+        # ints, integer-dtype array): a documented "float or np.array" centre may well be given like that
+        ci = np.rint(np.asarray(c, dtype=float)).astype(np.int64)
+        if flat:
+            return [int(ci[0]), np.int64(ci[0]), np.int32(ci[0]), np.array(ci[0])][int(rng.integers(4))]
+        return [[int(x) for x in ci], tuple(int(x) for x in ci), ci, ci.astype(np.int32)][int(rng.integers(4))]
     if flat:
         v = float(c[0])
         return [v, np.float64(v), np.array(v)][int(rng.integers(3))]
